@@ -89,7 +89,7 @@ func genC19(t *rapid.T) History {
 				next++
 				off = next
 			}
-			typ := rapid.SampledFrom([]uint16{1300, 1309, 1302, 1307, 1300, 1400, 1306, 1302, eoe, 1327, 1100, 1309}).Draw(t, "typ")
+			typ := genTyp(t, []uint16{1300, 1309, 1302, 1307, 1300, 1400, 1306, 1302, eoe, 1327, 1100, 1309})
 			h.Ops = append(h.Ops, Op{K: opPush, Seq: h.Base + off, Typ: typ})
 			used = append(used, off)
 		}
@@ -246,6 +246,36 @@ func propC19(h History) error {
 		hC19.NonTrivial(fpHistory(h), h.Describe)
 	}
 	return nil
+}
+
+// TestC19Large: hundreds of stale events at once. n lone SYSCALL records are buffered (maxInFlight far above
+// n), the harness sleeps well past the timeout, and one Maintain (or one push of a further record) has to
+// deliver every one of them; then Close. The oracle is propC19's (only definite answers are asserted).
+func TestC19Large(t *testing.T) {
+	sizes := []int{129, 300}
+	if hx.Thorough() {
+		sizes = append(sizes, 1000, 3000)
+	}
+	for _, n := range sizes {
+		for variant := 0; variant < 2; variant++ {
+			h := History{MaxInFlight: 4 * n, TimeoutNs: int64(2 * time.Millisecond), Windowed: true, Base: 1 << 16}
+			for i := 0; i < n; i++ {
+				h.Ops = append(h.Ops, Op{K: opPush, Seq: h.Base + uint32(i), Typ: 1300})
+			}
+			h.Ops = append(h.Ops, Op{K: opSleep, SleepUs: 6000})
+			if variant == 0 {
+				h.Ops = append(h.Ops, Op{K: opMaintain})
+			} else {
+				h.Ops = append(h.Ops, Op{K: opPush, Seq: h.Base + uint32(n), Typ: 1300})
+			}
+			h.Ops = append(h.Ops, Op{K: opMaintain}, Op{K: opClose})
+			hC19.Eval()
+			if err := hx.Guard(propC19, h); err != nil {
+				hC19.Fail(t, "TestC19", h, "%d lone SYSCALL records buffered (maxInFlight %d, timeout 2ms), 6ms sleep, then one %s: %v", n, 4*n, []string{"Maintain", "push"}[variant], err)
+			}
+			hC19.Class("large-stale-buffer-history")
+		}
+	}
 }
 
 func TestC19Regress(t *testing.T) { hx.Regress(t, hC19, "TestC19", propC19) }
